@@ -1,7 +1,7 @@
 -------------------------- MODULE MC_TimeTrigger --------------------------
 EXTENDS TimeTrigger, Json
 \* ---- grid evaluation of the schedule function (one state per case)
-VARIABLES g_now, g_unit, g_n, g_mod
+VARIABLES g_now, g_unit, g_n, g_mod, b_q, b_r
 BaseGrid(Years) == {Inst(Dfc(y, m, d), s) : y \in Years, m \in 1..12, d \in {1, 2, 15, 28, 29, 30, 31},
                                             s \in {0, 1, 3599, 3600, 43200, 86339, 86340, 86399}}
 \* around the daylight-saving transitions of the zones the harness uses (2024)
@@ -14,11 +14,11 @@ EdgeGrid == {Inst(Dfc(y, 12, 31), s) : y \in {2019, 2020, 2023, 2024, 2026}, s \
 GridQ == BaseGrid({2024}) \cup DstGrid \cup EdgeGrid
 GridT == BaseGrid({2023, 2024, 2025}) \cup DstGrid \cup EdgeGrid
 NsQ == {1, 2, 3, 5, 7, 12, 24}
-GInit(G) == g_now \in G /\ g_unit \in Units /\ g_n \in NsQ /\ g_mod \in BOOLEAN
+GInit(G) == b_q = 0 /\ b_r = 0 /\ g_now \in G /\ g_unit \in Units /\ g_n \in NsQ /\ g_mod \in BOOLEAN
             /\ now = Inst(0, 0) /\ cfg = [unit |-> "day", n |-> 1, mod |-> FALSE] /\ next = Inst(0, 0) /\ hist = <<>> /\ phase = "grid"
 GInitQ == GInit(GridQ)
 GInitT == GInit(GridT)
-GNext == UNCHANGED <<vars, g_now, g_unit, g_n, g_mod>>
+GNext == UNCHANGED <<vars, g_now, g_unit, g_n, g_mod, b_q, b_r>>
 Civil(i) == LET c == Cfd(i.z) IN [y |-> c.y, mo |-> c.m, d |-> c.d, h |-> i.s \div 3600, mi |-> (i.s % 3600) \div 60, s |-> i.s % 60]
 GStrict == Lt(g_now, NextTime(g_now, g_unit, g_n, g_mod))
 GRoundTrip == LET c == Cfd(g_now.z) IN Dfc(c.y, c.m, c.d) = g_now.z
@@ -32,6 +32,22 @@ GAligned == LET t == NextTime(g_now, g_unit, g_n, g_mod) c == Cfd(t.z) IN
      [] OTHER -> TRUE
 GEmit == PrintT(<<"REPLAY", ToJson([kind |-> "grid", now |-> Civil(g_now), unit |-> g_unit, n |-> g_n, mod |-> g_mod,
                                      expect |-> Civil(NextTime(g_now, g_unit, g_n, g_mod))])>>)
+\* ---- big counts (seconds / minutes / hours whose length in seconds is around and beyond 2^31 and 2^32)
+PerDay(u) == CASE u = "hour" -> 24 [] u = "minute" -> 1440 [] OTHER -> 86400
+\* <<q, r>> with n = q * PerDay + r: 2^31 - 1, 2^31, 2^32 - 1, 2^32, 2^32 + 1, 2^33 + 5 seconds and the maximum of 1000 years;
+\* minutes / hours whose length in seconds crosses 2^31 and 2^32, and their maxima
+BigNs(u) == CASE u = "second" -> {<<24855, 11647>>, <<24855, 11648>>, <<49710, 23295>>, <<49710, 23296>>, <<49710, 23297>>, <<99420, 46597>>, <<365250, 0>>}
+              [] u = "minute" -> {<<24855, 194>>, <<24855, 195>>, <<49710, 388>>, <<49710, 389>>, <<365250, 0>>}
+              [] OTHER        -> {<<24855, 3>>, <<24855, 4>>, <<49710, 6>>, <<49710, 7>>, <<365250, 0>>}
+BigGrid == {Inst(Dfc(2024, 2, 28), 86399), Inst(Dfc(2024, 12, 31), 86340), Inst(Dfc(2025, 6, 15), 43261), Inst(Dfc(2023, 1, 1), 0),
+            Inst(Dfc(2024, 3, 10), 3600), Inst(Dfc(2026, 10, 4), 7325)}
+BInit == /\ g_now \in BigGrid /\ g_unit \in {"hour", "minute", "second"} /\ g_mod \in BOOLEAN /\ g_n = 0
+         /\ \E qr \in BigNs(g_unit) : b_q = qr[1] /\ b_r = qr[2]
+         /\ now = Inst(0, 0) /\ cfg = [unit |-> "day", n |-> 1, mod |-> FALSE] /\ next = Inst(0, 0) /\ hist = <<>> /\ phase = "grid"
+BNext == UNCHANGED <<vars, g_now, g_unit, g_n, g_mod, b_q, b_r>>
+BStrict == Lt(g_now, NextTimeBig(g_now, g_unit, b_q, b_r, g_mod))
+BEmit == PrintT(<<"REPLAY", ToJson([kind |-> "grid", now |-> Civil(g_now), unit |-> g_unit, n |-> 0, n_q |-> b_q, n_r |-> b_r, per_day |-> PerDay(g_unit),
+                                     mod |-> g_mod, expect |-> Civil(NextTimeBig(g_now, g_unit, b_q, b_r, g_mod))])>>)
 \* ---- trigger histories
 StartsDef == {Inst(Dfc(2024, 2, 28), 86390), Inst(Dfc(2024, 12, 31), 86399), Inst(Dfc(2024, 6, 15), 43200), Inst(Dfc(2025, 1, 5), 0),
               Inst(Dfc(2024, 3, 30), 7000)}
@@ -40,8 +56,8 @@ ConfigsDef == [unit : {"second"}, n : {2}, mod : BOOLEAN] \cup [unit : {"minute"
               \cup [unit : {"week"}, n : {1}, mod : BOOLEAN] \cup [unit : {"month"}, n : {2}, mod : BOOLEAN]
               \cup [unit : {"year"}, n : {1}, mod : BOOLEAN]
 DeltasDef == {0, 1, 59, 60, 3600, 86400, 604800, 3456000}
-HInit == Init /\ g_now = Inst(0, 0) /\ g_unit = "day" /\ g_n = 1 /\ g_mod = FALSE
-HNext == Next /\ UNCHANGED <<g_now, g_unit, g_n, g_mod>>
+HInit == Init /\ g_now = Inst(0, 0) /\ g_unit = "day" /\ g_n = 1 /\ g_mod = FALSE /\ b_q = 0 /\ b_r = 0
+HNext == Next /\ UNCHANGED <<g_now, g_unit, g_n, g_mod, b_q, b_r>>
 HistJson == [i \in 1..Len(hist) |-> IF hist[i].op = "new" THEN [op |-> "new", now |-> Civil(hist[i].now), sched |-> Civil(hist[i].sched), fire |-> FALSE]
                                     ELSE [op |-> "arrive", now |-> Civil(hist[i].now), sched |-> Civil(hist[i].sched), fire |-> hist[i].fire]]
 HEmit == (phase = "run" /\ Len(hist) = MaxArrivals + 1) => PrintT(<<"REPLAY", ToJson([kind |-> "history", cfg |-> cfg, ops |-> HistJson])>>)
